@@ -192,15 +192,81 @@ def rule(draw):
         r['path_namespace'] = draw(st.sampled_from(NAMESPACES))
     if draw(st.integers(0, 4)) == 0:
         r['destination'] = draw(st.sampled_from(DESTS))
-    k = draw(st.integers(0, 3))
-    if k == 0:
+    k = draw(st.integers(0, 4))
+    used = set()
+    if k in (0, 2):
         r['args'] = [[draw(st.sampled_from([0, 0, 1, 2, 10, 11])), draw(st.sampled_from(ARGVALS))]]
         if draw(st.integers(0, 3)) == 0:
             r['args'].append([(r['args'][0][0] + 1) % 12, draw(st.sampled_from(ARGVALS))])
-    elif k == 1:
-        r['arg_paths'] = [[draw(st.sampled_from([0, 0, 1, 2, 10])), draw(st.sampled_from([v for v in ARGVALS if v]))]]
+        used = {i for i, _ in r['args']}
+    if k in (1, 2):
+        # value and path constraints may sit side by side in one rule (on different arguments)
+        idx = draw(st.sampled_from([i for i in (0, 0, 1, 2, 3, 10) if i not in used]))
+        r['arg_paths'] = [[idx, draw(st.sampled_from([v for v in ARGVALS if v]))]]
+        if draw(st.integers(0, 4)) == 0:
+            r['arg_paths'].append([[i for i in (4, 5, 6) if i not in used][0], draw(st.sampled_from([v for v in ARGVALS if v]))])
     r['raises'] = draw(st.integers(0, 5)) == 0
     return r
+
+
+@st.composite
+def message_near(draw, r, types):
+    """A message built to satisfy every constraint of rule `r`, then (usually) changed in exactly one constrained place."""
+    tnum = {'method_call': 1, 'method_return': 2, 'error': 3, 'signal': 4}
+    t = tnum[r['type']] if r.get('type') else draw(st.sampled_from(list(types)))
+    if t not in types:
+        t = draw(st.sampled_from(list(types)))
+    path = r.get('path') or (draw(st.sampled_from([q for q in PATHS if q == r['path_namespace'] or
+                                                     q.startswith(r['path_namespace'].rstrip('/') + '/')] or
+                                                    [r['path_namespace']]))
+                             if r.get('path_namespace') else draw(st.sampled_from(PATHS)))
+    m = {'type': t, 'path': path, 'interface': r.get('interface') or draw(st.sampled_from(IFACES)),
+         'member': r.get('member') or draw(st.sampled_from(MEMBERS)),
+         'destination': r.get('destination') or draw(st.sampled_from(DESTS + [None, None])),
+         'little': draw(st.booleans())}
+    want = {}
+    for i, v in r.get('args') or []:
+        want[i] = ('s', v)
+    for i, v in r.get('arg_paths') or []:
+        want[i] = ('s', v)
+    n = (max(want) + 1) if want else draw(st.sampled_from([0, 1, 2]))
+    sig, trees = '', []
+    for i in range(n):
+        if i in want:
+            sig += 's'
+            trees.append(want[i][1])
+        else:
+            k = draw(st.sampled_from(['s', 's', 'i', 'o']))
+            sig += k
+            trees.append(draw(st.sampled_from(ARGVALS)) if k == 's' else draw(st.sampled_from(PATHS)) if k == 'o'
+                         else draw(st.integers(0, 3)))
+    # one perturbation in a constrained place (or none: a full match)
+    keys = [k for k in ('type', 'interface', 'member', 'path', 'path_namespace', 'destination') if r.get(k)]
+    keys += ['arg:%d' % i for i in want]
+    keys.append(None)
+    k = draw(st.sampled_from(keys))
+    if k == 'type':
+        m['type'] = draw(st.sampled_from(list(types)))
+    elif k == 'interface':
+        m['interface'] = draw(st.sampled_from(IFACES))
+    elif k == 'member':
+        m['member'] = draw(st.sampled_from(MEMBERS))
+    elif k in ('path', 'path_namespace'):
+        m['path'] = draw(st.sampled_from(PATHS))
+    elif k == 'destination':
+        m['destination'] = draw(st.sampled_from(DESTS + [None]))
+    elif k is not None:
+        i = int(k[4:])
+        how = draw(st.sampled_from(['value', 'value', 'value', 'int', 'short']))
+        if how == 'value':
+            trees[i] = draw(st.sampled_from(ARGVALS))
+        elif how == 'int':
+            sig = sig[:i] + 'i' + sig[i + 1:]
+            trees[i] = 1
+        else:
+            sig, trees = sig[:i], trees[:i]
+    m['sig'], m['trees'] = sig, trees
+    return m
 
 
 @st.composite
@@ -229,7 +295,12 @@ def message(draw, types=(4, 4, 4, 4, 1, 2, 3)):
 @st.composite
 def router_case(draw, tier, types=(4, 4, 4, 4, 1, 2, 3)):
     rules = [draw(rule()) for _ in range(draw(st.integers(1, 6)))]
-    msgs = [draw(message(types)) for _ in range(draw(st.integers(1, 4)))]
+    msgs = []
+    for _ in range(draw(st.integers(1, 4))):
+        if draw(st.booleans()):
+            msgs.append(draw(message(types)))
+        else:
+            msgs.append(draw(message_near(rules[draw(st.integers(0, len(rules) - 1))], tuple(types))))
     ops = [['add', i] for i in range(len(rules))]
     for _ in range(draw(st.integers(1, 10))):
         k = draw(st.sampled_from(['msg', 'msg', 'msg', 'remove', 'add']))
